@@ -19,3 +19,14 @@ impl<K: KeyV, V> HashMap<K, V> {
         ensures match r { Some(v) => self@.dom().contains(k.kv()) && *v == self@[k.kv()], None => !self@.dom().contains(k.kv()) } { unimplemented!() }
     #[verifier::external_body] pub fn contains_key<Q: KeyV<KV = K::KV> + ?Sized>(&self, k: &Q) -> (r: bool) ensures r == self@.dom().contains(k.kv()) { unimplemented!() }
 }
+
+#[verifier::reject_recursive_types(K)]
+pub struct HashSet<K: KeyV> { pub ghost s: Set<K::KV>, pub _k: ::std::marker::PhantomData<K> }
+impl<K: KeyV> HashSet<K> {
+    pub open spec fn view(&self) -> Set<K::KV> { self.s }
+    #[verifier::external_body] pub fn new() -> (r: Self) ensures r@ == Set::<K::KV>::empty() { unimplemented!() }
+    #[verifier::external_body] pub fn insert(&mut self, k: K) -> (b: bool) ensures final(self)@ == old(self)@.insert(k.kv()), b == !old(self)@.contains(k.kv()) { unimplemented!() }
+    #[verifier::external_body] pub fn contains<Q: KeyV<KV = K::KV> + ?Sized>(&self, k: &Q) -> (r: bool) ensures r == self@.contains(k.kv()) { unimplemented!() }
+    #[verifier::external_body] pub fn is_empty(&self) -> (r: bool) ensures r == (self@ =~= Set::<K::KV>::empty()) { unimplemented!() }
+    #[verifier::external_body] pub fn len(&self) -> (r: usize) ensures self@.finite() ==> r == self@.len() { unimplemented!() }
+}
